@@ -5,6 +5,9 @@ CONSTANTS
   Alphabet = {120, 58, 35, 32, 9, 13, 10}
   MaxLen = 4
   LemmaLen = 0
+  GpgLen = 0
+  StrictDroppedInGpgClasses = FALSE
+  PosStrictMissedByPrepass = FALSE
   ZoneWhatIf = TRUE
   Emit = TRUE
   NoIndentRule = FALSE
